@@ -7,6 +7,7 @@ mod r_nan;
 mod r_num;
 mod r_quant;
 mod r_sort;
+mod r_strat;
 
 use common::Toks;
 use std::io::{BufRead, Write};
@@ -30,6 +31,7 @@ fn dispatch(routine: &str, t: &mut Toks) -> String {
         | "pearson_correlation" | "count_eq" | "count_neq" | "sq_l2_dist" | "l1_dist" | "linf_dist"
         | "l2_dist" | "mean_abs_err" | "mean_sq_err" | "root_mean_sq_err"
         | "peak_signal_to_noise_ratio" | "libm" => r_num::run(routine, t),
+        "strategy" | "gridb" => r_strat::run(routine, t),
         "profile" => {
             if cfg!(debug_assertions) {
                 "OK debug".to_string()
